@@ -482,6 +482,34 @@ impl World {
         v
     }
 
+    /// Are the parent links acyclic and every child list free of repeats?  Once they are not (only a defect can
+    /// do that - the logged state already shows it), further calls on this DOM may never return, so the
+    /// episode is abandoned after logging.
+    fn still_a_forest(&self) -> bool {
+        for dom in self.doms.iter().flatten() {
+            for r in &self.refs {
+                if let Some(inst) = dom.get_by_ref(*r) {
+                    let mut seen = std::collections::HashSet::new();
+                    for c in inst.children() {
+                        if !seen.insert(*c) || *c == *r {
+                            return false;
+                        }
+                    }
+                    let mut p = inst.parent();
+                    let mut steps = 0;
+                    while p.is_some() {
+                        steps += 1;
+                        if p == *r || steps > self.refs.len() + 2 {
+                            return false;
+                        }
+                        p = dom.get_by_ref(p).map(|i| i.parent()).unwrap_or(Ref::none());
+                    }
+                }
+            }
+        }
+        true
+    }
+
     fn subtree(&self, d: usize, k: i64) -> Vec<i64> {
         let dom = self.doms[d].as_ref().unwrap();
         dom.descendants_of(self.real(k)).take(10_000).map(|i| self.spec_ref(i.referent())).collect()
@@ -524,6 +552,9 @@ pub fn run(max_ref: usize, num_slots: usize, input: &mut dyn BufRead, out: &mut 
                 emit(out, &ep, ev);
             }
             if panicked && op["op"] != "transfer_within_bad" {
+                break;
+            }
+            if !w.still_a_forest() {
                 break;
             }
             for ev in w.walks(touched(op)) {
@@ -616,6 +647,9 @@ fn random_steps(w: &mut World, rng: &mut StdRng, steps: usize, uid_pool: i64, la
                 emit(out, ep, ev);
             }
             if panicked && op["op"] != "transfer_within_bad" {
+                break;
+            }
+            if !w.still_a_forest() {
                 break;
             }
             for ev in w.walks(touched(&op)) {
